@@ -4,8 +4,7 @@ import ScrutModel.Model.Crlf
 import Driver.Util
 /-! C13 ops: `replace`, `render`, `crlf`, `rout`, `execall`, `compile`, `rmdiv`, `bash`, `unmodelled`. -/
 open Scrut Scrut.Template Scrut.Divider Scrut.Crlf
-namespace Driver
-
+namespace Driver.TplOps
 /-- hex of UTF-8 text → characters -/
 def untext (s : String) : Option (List Char) := do
   let bs ← unhex s
@@ -140,4 +139,4 @@ def opBash (args : List String) : String :=
 /-- cases that only the direct oracle can judge (megabyte payloads) -/
 def opUnmodelled (_ : List String) : String := "unmodelled"
 
-end Driver
+end Driver.TplOps
